@@ -50,7 +50,7 @@ NextCached(s) ==
   [s |-> [s EXCEPT !.cachePtr = p, !.missR = IF p >= Len(s.cache) THEN 0 ELSE @], out |-> s.cache[p]]
 
 (* BinaryStartReceiver + Start *)
-Init(nl, nr, cl, cr) ==
+BSInit(nl, nr, cl, cr) ==
   [L |-> SideInit(nl, cl), R |-> SideInit(nr, cr), first |-> FALSE,
    batch |-> <<>>, missR |-> nl + nr, missX |-> nl + nr, n |-> nl + nr, timedOut |-> FALSE]
 
@@ -65,16 +65,20 @@ AfterReset(st) ==
 (*   <<"recv", sides, first>>  a receive on the channels of `sides`                              *)
 (*   <<"cache", side>>   the next cached message of that side                                    *)
 (*   "none"              nothing can be received (both terminated, nothing cached)               *)
-Choice(st) ==
+(* f8 = FALSE: the code before the repair of finding F8 (the cache was replayed again while the    *)
+(* Terminates of the other side were still arriving)                                              *)
+ChoiceX(st, f8) ==
   IF Terminated(st.L) /\ Terminated(st.R) /\ (st.L.cached \/ st.R.cached) THEN <<"synth">>
   ELSE IF st.first /\ (st.L.cached \/ st.R.cached)
        THEN <<"recv", IF st.L.cached THEN {"R"} ELSE {"L"}, TRUE>>
-  ELSE IF st.L.cached /\ st.L.cacheFull /\ ~CacheFinished(st.L) /\ ~Terminating(st.R) THEN <<"cache", "L">>
-  ELSE IF st.R.cached /\ st.R.cacheFull /\ ~CacheFinished(st.R) /\ ~Terminating(st.L) THEN <<"cache", "R">>
+  ELSE IF st.L.cached /\ st.L.cacheFull /\ ~CacheFinished(st.L) /\ ~(f8 /\ Terminating(st.R)) THEN <<"cache", "L">>
+  ELSE IF st.R.cached /\ st.R.cacheFull /\ ~CacheFinished(st.R) /\ ~(f8 /\ Terminating(st.L)) THEN <<"cache", "R">>
   ELSE IF Ended(st.L) THEN <<"recv", {"R"}, FALSE>>
   ELSE IF Ended(st.R) THEN <<"recv", {"L"}, FALSE>>
   ELSE LET sides == (IF Terminated(st.L) THEN {} ELSE {"L"}) \cup (IF Terminated(st.R) THEN {} ELSE {"R"})
        IN IF sides = {} THEN <<"none">> ELSE <<"recv", sides, FALSE>>
+
+Choice(st) == ChoiceX(st, TRUE)
 
 SynthBatch(st) == [i \in 1..(IF st.L.cached THEN st.L.inst ELSE st.R.inst) |-> El("X", 0)]
 
